@@ -18,18 +18,18 @@ func init() {
 		ID: "C05",
 		Explanation: "Structural necessary conditions of 'lifetimes are bounded by max TTL; every stored lease is tracked': " +
 			"(1) framework.CalculateTTL: the effective maximum is selected among the mount maximum, the backend maximum and the explicit maximum only behind the 'positive and smaller' tests; a hard stop is always established — issue time + effective max in the non-periodic arm, issue time + explicit max in the periodic arm whenever an explicit max is set — before a TTL is returned, a request past the hard stop fails, and the TTL is capped to the remaining time (both tests are evaluated in CalculateTTL or in the one function of its package, called directly, that they were extracted into — together with the linkage: the helper's error never reaches a success return, success with a hard stop crosses the call, its result 0 is returned; anywhere else they are reported as undecided); the issue time used is the caller's start time; both narrowing tests (backend maximum, explicit maximum) are evaluated on every path before the effective maximum is first used; " +
-			"(2) every TTL granted or extended by the server comes out of CalculateTTL, and the two renew functions pass the lease's original IssueTime; the expiry stored for a lease is derived from the response after the TTL was written; writers of leaseEntry.ExpireTime are tabled; " +
+			"(2) every TTL granted or extended by the server comes out of CalculateTTL, and the two renew functions pass the lease's original IssueTime; the expiry stored for a lease is derived from the response after the TTL was written; writers of leaseEntry.ExpireTime are tabled (an unexported function called only by tabled writers may write what they may, and the batch-token clamp stays behind 'expires after the token' wherever it was extracted to); " +
 			"(3) Renew/RenewToken reach the backend only across the nil-error edge of leaseEntry.renewable (called directly or through its method value), whose nil-error returns lie behind the nil / irrevocable / zero-expiry / expired refusals (the non-renewable refusal is bypassed for leases under batch tokens: known finding A3); " +
 			"(4) persisted ⇒ tracked: every success edge of persistEntry is followed by updatePending (tabled exceptions), and updatePendingInternal files a lease in exactly one of the pending / non-expiring / irrevocable sets; " +
 			"(5) restore walks every stored lease of every namespace and tracks it; (6) failed revocations are retried a bounded number of times and then marked irrevocable; " +
-			"(7) the mount maximum handed to CalculateTTL is fetchTTLs' second result, which is the mount's tuned max_lease_ttl whenever that is non-zero (and only then); " +
+			"(7) the mount maximum handed to CalculateTTL (dynamicSystemView.MaxLeaseTTL) is computed in MaxLeaseTTL itself or is the unchanged result of the one function of the package it calls (fetchTTLs' second result today), and is the mount's tuned max_lease_ttl whenever that is non-zero (and only then); " +
 			"(8) LeaseOptions.ExpirationTime is time.Now() + LeaseTotal(), and LeaseTotal is the TTL field or 0; " +
 			"(9) at issue time CalculateTTL's result is written (resp.Secret.TTL / te.TTL) before the lease is registered / the token created, a login token is created with CalculateTTL's result (Core.RegisterAuth, only caller LoginCreateToken) and the Auth its lease is registered with carries the created entry's TTL; " +
 			"(10) of a role's and the request's explicit max TTL / period the role's value is taken only when it is smaller or none was requested; " +
 			"(11) collectLeases fails when listing the namespaces or a namespace's leases fails and returns the sum of the per-namespace key counts, the restore worker sends every processRestore error to the restore loop, whose collector returns the received error on every return reachable after the receive (other than past a nil test of that value), and RestoreNamespace enters restore mode before it restores; " +
 			"(12) revocationJob.Execute returns Revoke's error, and markLeaseIrrevocable files every live lease it is given in the irrevocable set before removing it from pending; " +
 			"(13) the expiry timer is armed / reset with time.Until(le.ExpireTime); " +
-			"(14) Register's deferred rollback, armed before persistEntry, deletes the stored lease whenever Register fails.",
+			"(14) Register's deferred rollback, armed before persistEntry, deletes the stored lease whenever Register fails. Throughout, a call is located by its resolved callee: written directly, made through a bound method value, or made on every path by a closure of the function / an unexported helper of the package (arguments are followed back through captured variables and parameters); what cannot be followed is reported as undecided.",
 		NotDecided: "the numeric bound itself (arithmetic over time.Duration inside CalculateTTL beyond the structural hard-stop clauses); periodic-token capping arithmetic; tracking after a crash at an arbitrary write prefix; clock behaviour.",
 		Run:        runC05,
 	})
